@@ -39,13 +39,13 @@ type plan struct {
 var plans = map[string]*plan{
 	"C02": {Race: false, Quick: 330, Thorough: 6000, Procs: 16, XProc: 24, Level: "exploration",
 		Rule: "a case is one workload (packages x selection x parameters x -concurrency, drawn from the seed) executed under 4 (quick) or 6 (thorough) (map policy, schedule) variants; distinct = distinct hash of (flags, visits, applied map permutations, hand-over sequence); non-trivial = at least one applied permutation differing from canonical at a map site with >= 2 entries, or a switch between two live checker tasks"},
-	"C03": {Race: false, Quick: 400, Thorough: 12000, Procs: 16, XProc: 16, Level: "exploration",
+	"C03": {Race: false, Quick: 800, Thorough: 12000, Procs: 16, XProc: 16, Level: "exploration",
 		Rule: "a case is one history of package visits (1..12 quick, 1..40 thorough; permuted/subset/repeated files) applied to one long-lived CLI program; distinct = distinct hash of (flags, history, schedule); non-trivial = history length >= 2 with >= 1 diagnostic printed after the first visit"},
 	"C04": {Race: true, Quick: 360, Thorough: 6000, Procs: 16, XProc: 16, Level: "exploration",
 		Rule: "a case is one seeded schedule of the CLI's checkFile (N checker goroutines, semaphore, barrier) or of K parallel analyzer passes, in a -race build whose context switches are invisible to the race detector; distinct = distinct hash of the hand-over sequence (from,to,site) plus workload; non-trivial = at least one switch that suspends a started, unfinished checker task in favour of another checker task"},
 	"C05": {Race: false, Quick: 420, Thorough: 6000, Procs: 16, XProc: 12, Level: "exploration",
 		Rule: "3 of 4 cases: every selected checker applied in a seeded order (name, reverse, shuffle) to the same tree of one corpus package, with a fingerprint of syntax trees, types.Info, shared context, checker registry and astcast sentinels after every Check, and diagnostics (with fixes) compared with the run-alone reference - the first 2 rounds sweep all registered checkers over all corpus packages; 1 of 4 cases: the real CLI under a non-serial seeded schedule with fingerprints taken at context switches; distinct = distinct hash of (flags, visits, order | hand-over sequence); non-trivial = >= 2 checkers on one tree with >= 1 diagnostic, or >= 1 interleaving switch with >= 1 switch-point fingerprint"},
-	"C13": {Race: false, Quick: 960, Thorough: 12000, Procs: 16, XProc: 16, Level: "exploration",
+	"C13": {Race: false, Quick: 1600, Thorough: 12000, Procs: 16, XProc: 16, Level: "exploration",
 		Rule: "a case is one example file of one corpus package under (a) a seeded permutation of the positions of its plain functions inside f.Decls with no re-parse, or (b) a seeded source transformation (plain-function chunks permuted, blank lines / padding declarations inserted, unrelated functions appended) re-parsed and re-type-checked in memory; oracles: diagnostics of every selected non-exempt checker equal the untransformed run (line-shift normalised), and the package's own checker still satisfies the maintainers' /*! */ expectations, which travel with their chunk; distinct = distinct (package, file, permutation, paddings, selection); non-trivial = at least one function moved or padding inserted, and at least one diagnostic to preserve"},
 	"C18": {Race: false, Quick: 1600, Thorough: 60000, Procs: 16, XProc: 32, Level: "fault_enumeration",
 		Rule: "a case is one rule-file scenario on the simulated disk: 1-4 files, each valid / unreadable (EIO, EISDIR, EACCES, vanished after Glob) / torn at a group boundary / torn inside a group / empty / DSL violation / unloadable import, x patterns (paths and globs, spacing, order, no-match) x failOn (subsets, empty entries, unknown values) x legacy failOnError x enable/disable lists over names, tags, #experimental, unknown entries, x 1-2 constructions; even run indices are fault-free, odd ones fault-injecting; distinct = distinct scenario text; non-trivial = a fault fired, an init error is demanded, or a group filter is in play"},
@@ -208,7 +208,7 @@ func (c *checkCtx) check() int {
 			// quick: a seeded third of the corpus, the hand-written packages always
 			var sel []repeatCase
 			for i, t := range targets {
-				if strings.HasPrefix(t.Target, "./corpus/") || (uint64(i)+c.Seed)%3 == 0 {
+				if strings.HasPrefix(t.Target, "./corpus/") || strings.HasSuffix(t.Dir, "/oldmod") || (uint64(i)+c.Seed)%3 == 0 {
 					sel = append(sel, t)
 				}
 			}
@@ -229,7 +229,7 @@ func (c *checkCtx) check() int {
 			fmt.Fprintln(os.Stderr, "gcsim: build trouble:", err)
 			return 2
 		}
-		n := 48
+		n := 68
 		if c.Tier == "thorough" {
 			n = 1200
 		}
